@@ -209,6 +209,33 @@ Theorem converged_precipitate_only_row_valid : forall fun1 fun2, libm_ok fun1 ->
 Proof. exact Tie.converged_precipitate_only_row_valid. Qed.
 Print Assumptions converged_precipitate_only_row_valid.
 
+(* reuse of the equation system between consecutive calculations (prep.cpp quick_setup): everything the full build
+   (setup_pure_phases) takes from the assemblage component - target SI, amount, delta, dissolve_only - is refreshed *)
+Theorem quick_setup_refreshes_what_setup_builds :
+    reuse_refreshes_all setup_comp setup_pp quick_comp quick_pp = true /\
+    mem_str "si" (comp_fields setup_comp setup_pp) = true /\
+    mem_str "moles" (comp_fields setup_comp setup_pp) = true /\
+    mem_str "dissolve_only" (comp_fields setup_comp setup_pp) = true.
+Proof. exact Tie.quick_setup_refreshes_what_setup_builds. Qed.
+Print Assumptions quick_setup_refreshes_what_setup_builds.
+
+Theorem quick_setup_refreshes_pp : forall fun1 fun2 (e : env),
+    wp fun1 fun2 quick_pp e (fun e1 _ =>
+      e1 "x.si" = e (quick_comp ++ ".si") /\
+      e1 "x.moles" = e (quick_comp ++ ".moles") /\
+      (e (quick_comp ++ ".dissolve_only") <> 0 -> e1 "x.dissolve_only" = Q2R c_TRUE) /\
+      (e (quick_comp ++ ".dissolve_only") = 0 -> e1 "x.dissolve_only" = Q2R c_FALSE)).
+Proof. exact Tie.quick_setup_refreshes_pp. Qed.
+Print Assumptions quick_setup_refreshes_pp.
+
+Theorem setup_pure_phases_fills_pp : forall fun1 fun2 (e : env),
+    wp fun1 fun2 setup_pp e (fun e1 _ =>
+      e1 "x.si" = e (setup_comp ++ ".si") /\
+      e1 "x.moles" = e (setup_comp ++ ".moles") /\
+      e1 "x.dissolve_only" = e (setup_comp ++ ".dissolve_only")).
+Proof. exact Tie.setup_pure_phases_fills_pp. Qed.
+Print Assumptions setup_pure_phases_fills_pp.
+
 (* the executable checker applied to what the implementation reports is sound for the property *)
 Theorem check_hetero_sound : forall c : hcase, case_ok c = true -> hetero_valid c.
 Proof. exact SpecProofs.case_ok_sound. Qed.
